@@ -32,7 +32,8 @@ Maps == { <<>>,
           <<[p |-> P, u |-> U1], [p |-> Q, u |-> U2]>>,
           <<[p |-> <<>>, u |-> U1]>>, <<[p |-> <<>>, u |-> XHTML]>>,
           <<[p |-> <<>>, u |-> U1], [p |-> P, u |-> U2]>>,
-          <<[p |-> <<>>, u |-> U2], [p |-> P, u |-> U1], [p |-> Q, u |-> XHTML]>> }
+          <<[p |-> <<>>, u |-> U2], [p |-> P, u |-> U1], [p |-> Q, u |-> XHTML]>>,
+          <<[p |-> P, u |-> U1], [p |-> <<80>>, u |-> U2]>>, <<[p |-> <<80>>, u |-> U1]>> }          \* prefixes are case-sensitive: p and P
 NsB == [t |-> "bare"]
 NsN == [t |-> "none"]
 NsA == [t |-> "any"]
@@ -41,7 +42,7 @@ TypeS(ns, n) == [k |-> "type", ns |-> ns, name |-> n]
 AttrS(ns) == [k |-> "attr", ns |-> ns, name |-> A, op |-> "ex", val |-> <<>>, flag |-> "n"]
 AttrU(ns) == [k |-> "attr", ns |-> ns, name |-> <<65>>, op |-> "ex", val |-> <<>>, flag |-> "n"]     \* the same name in upper case
 Cx1(c) == [cs |-> <<c>>, cb |-> <<>>]
-Forms == {Cx1(<<TypeS(ns, E)>>) : ns \in {NsB, NsN, NsA, NsP(P), NsP(Q), NsP(U)}}
+Forms == {Cx1(<<TypeS(ns, E)>>) : ns \in {NsB, NsN, NsA, NsP(P), NsP(Q), NsP(U), NsP(<<80>>)}}
     \cup {Cx1(<<TypeS(NsB, Star)>>), Cx1(<<TypeS(NsP(P), Star)>>), Cx1(<<TypeS(NsA, Star)>>), Cx1(<<TypeS(NsN, Star)>>)}
     \cup {Cx1(<<[k |-> "is", args |-> <<Cx1(<<TypeS(NsB, E)>>)>>]>>),
           Cx1(<<[k |-> "not", args |-> <<Cx1(<<TypeS(NsP(P), E)>>)>>]>>),
